@@ -192,19 +192,63 @@ func c19SizeFloor(c *Ctx) {
 
 // readNLower: if v is the result of reader.ReadN(n) (possibly through the error check), the
 // proven lower bound of n.
-func readNLower(fn *ssa.Function, v ssa.Value) (int64, bool) {
+func readNLower(fn *ssa.Function, v ssa.Value, at ssa.Instruction) (int64, bool) {
+	// v as the result of one particular call of a shared new helper: the constant arguments of that
+	// call are known values of the helper's parameters ("readAtLeast(hdr, hdrLen, 1)")
+	known := map[string]int64{}
+	if cs, _ := callOf(stripSlices(v)); cs != nil {
+		if h := directCallee(cs); h != nil && newHelpers[h] {
+			for k, a := range cs.Call.Args {
+				if kc, ok := a.(*ssa.Const); ok && kc.Value != nil && k < len(h.Params) && isIntegerType(a.Type()) {
+					known[fmt.Sprintf("param#%d", k)] = kc.Int64()
+				}
+			}
+		}
+	}
+	best, found := int64(0), false
 	for _, l := range leaves(v) {
+		// the nil a helper returns together with an error: not the value that is sliced when the
+		// use lies behind the nil-error edge of that helper call
+		if k, isK := l.(*ssa.Const); isK && k.Value == nil && at != nil {
+			if cs, idx := callOf(stripSlices(v)); cs != nil && idx == 0 && errResultIndex(cs) > 0 {
+				ei := errResultIndex(cs)
+				okG, _ := guarded(fn, at, func(iff *ssa.If) (bool, bool) {
+					cm, truth, ok := cmpOf(iff.Cond)
+					if !ok || (cm.op != token.EQL && cm.op != token.NEQ) || !(isNilConst(cm.x) || isNilConst(cm.y)) {
+						return false, false
+					}
+					subj := cm.x
+					if isNilConst(cm.x) {
+						subj = cm.y
+					}
+					if c2, i2 := callOf(subj); c2 != cs || i2 != ei {
+						return false, false
+					}
+					nilOnTrue := (cm.op == token.EQL) == truth
+					return nilOnTrue, !nilOnTrue
+				})
+				if okG {
+					continue
+				}
+			}
+		}
 		call, idx := callOf(l)
 		if call == nil || idx != 0 || callee(call) != "(desync.reader).ReadN" {
 			return 0, false
 		}
-		lb, ok := lowerBound(fn, call, call.Call.Args[len(call.Call.Args)-1])
+		arg := call.Call.Args[len(call.Call.Args)-1]
+		lb, ok := lowerBound(fn, call, arg)
+		if lb2, ok2 := provenLowerWith(call, arg, known); ok2 && (!ok || lb2 > lb) {
+			lb, ok = lb2, true
+		}
 		if !ok {
 			return 0, false
 		}
-		return lb, true
+		if !found || lb < best {
+			best, found = lb, true
+		}
 	}
-	return 0, false
+	return best, found
 }
 
 func c19SliceGuards(c *Ctx) {
@@ -335,7 +379,7 @@ func c19SliceGuards(c *Ctx) {
 			}
 			// (b) the buffer is the result of ReadN(n) with n >= need
 			if !guardOK {
-				if lb, ok := readNLower(f, sl.X); ok && lb >= need {
+				if lb, ok := readNLower(f, sl.X, sl); ok && lb >= need {
 					guardOK = true
 				}
 			}
@@ -632,7 +676,7 @@ func c19IndexGuards(c *Ctx) {
 				}
 			}
 			if !ok {
-				if lb, found := readNLower(f, x); found && lb >= need {
+				if lb, found := readNLower(f, x, ins); found && lb >= need {
 					ok = true
 				}
 			}
